@@ -212,3 +212,7 @@ def run(ctx):
     ctx.notes["rule"] = ("tables: methods x paths, parameter maps over {a,space,+,&,=,%,0xFF,;,#}, header maps, all bodies over {CR,LF,NUL,a} up to length 4 (6), status codes x reasons, "
                          "all start lines of <= 3 (4) tokens; random: binary bodies to 4 KB, up to 3 params/headers; distinct = wire forms")
     ctx.exhaustive = True
+    # history freedom of the functions of their input behind this property (Pure.tla)
+    from vt.checks import xpure
+
+    xpure.pure_part(ctx, xpure.entries_for("C16"))
